@@ -5,12 +5,21 @@ from __future__ import annotations
 import asyncio
 from contextlib import contextmanager
 
-from vlib.peers_tunnel import Gateway, IterationInjector, make_cemi
+from vlib.peers_tunnel import (
+    SECURE_DEVICE_PASSWORD,
+    SECURE_USER_ID,
+    SECURE_USER_PASSWORD,
+    Gateway,
+    IterationInjector,
+    SecureGateway,
+    make_cemi,
+    secure_harness,
+)
 from vlib.vloop import Deadlock, LoopBudget, new_loop
 from xknx import XKNX
 from xknx.core import XknxConnectionState
 from xknx.exceptions import CommunicationError
-from xknx.io.tunnel import TCPTunnel, UDPTunnel, _Tunnel
+from xknx.io.tunnel import SecureTunnel, TCPTunnel, UDPTunnel, _Tunnel
 
 LEVEL = "fault_enumeration"
 TECHNIQUE = ("runtime monitor: failure events injected at every event-loop iteration (and in the middle of every sleep) of a real "
@@ -18,16 +27,18 @@ TECHNIQUE = ("runtime monitor: failure events injected at every event-loop itera
              "registered state callbacks, and 'connected' vs. an event-derived established-connection automaton at every sleep point")
 LEVEL_TEXT = (
     "Baseline session (connect, send, heartbeat at 70 s, two sends, heartbeat at 140 s, disconnect, 200 s of silence) for the real "
-    "UDPTunnel (also with route_back) and TCPTunnel with auto-reconnect on and off, on the virtual loop against a scripted gateway. Failure events "
+    "UDPTunnel (also with route_back), TCPTunnel and SecureTunnel (against a scripted secure server built on the reference "
+    "crypto) with auto-reconnect on and off, on the virtual loop against a scripted gateway. Failure events "
     "{server DisconnectRequest (single / duplicated / with the next ConnectRequests unanswered / with the next ConnectResponse 0.7 s late), heartbeat unanswered x4 / x3, "
-    "ACKs dropped x2 / x1, TCP connection lost, user disconnect()} are injected at EVERY loop iteration index of the run and in "
+    "ACKs dropped x2 / x1, TCP connection lost, secure session closed by the server (status close / timeout), user disconnect()} are injected at EVERY loop iteration index of the run and in "
     "the middle of every sleep; plus ordered pairs of failure kinds with the second one at every iteration within a window after the first (quick: "
     "second kind in {server disconnect, user disconnect}, window 2; thorough: all kinds, window 10 and two farther points). "
     "Bounded exhaustive enumeration of single faults (pairs: windowed)."
 )
 LEVEL_NOTE = (
-    "Trusted: virtual loop, scripted gateway. Secure tunnel NOT run (restricted to UDP + TCP; SecureTunnel inherits _Tunnel's "
-    "lifecycle code unchanged, its session peer is built by another check). Judged: (1) never two _Tunnel._reconnect executions "
+    "Trusted: virtual loop, scripted gateway, the reference IP Secure crypto of the secure peer (PBKDF2 results memoised, ECDH "
+    "keys seeded). Secure tunnel: single faults in quick, pairs in thorough; 'nothing sent' includes SessionRequest, wrapped "
+    "keep-alives and new TCP connections. Judged: (1) never two _Tunnel._reconnect executions "
     "at once, never a ConnectRequest while an earlier handshake is still open; (2) after the first user disconnect() returned: no "
     "frame on any transport, no new TCP connection; (3) both state callbacks see the same sequence without consecutive "
     "duplicates; connected.is_set() == (state is CONNECTED) at every callback and sleep point; (4) at every point where virtual "
@@ -42,9 +53,12 @@ SHARDS = {"quick": 1, "thorough": 16}
 TIMEOUT = {"quick": 300, "thorough": 3000}
 
 EPS = 1e-9
-CONFIGS = (("udp", True, False), ("udp", False, False), ("udp", True, True), ("tcp", True, False), ("tcp", False, False))
+CONFIGS = (("udp", True, False), ("udp", False, False), ("udp", True, True), ("tcp", True, False), ("tcp", False, False),
+           ("secure", True, False), ("secure", False, False))
 FAULTS_UDP = ("SD", "SD2", "SDL", "SDRE", "SDCR", "SDCD", "HB4", "HB3", "AD2", "AD1", "OOO", "BO", "BOUD", "UD")
 FAULTS_TCP = ("SD", "SD2", "SDL", "SDRE", "SDCR", "SDCD", "HB4", "HB3", "TL", "TLCR", "BO", "BOUD", "UD")
+
+FAULTS_SECURE = ("SD", "SD2", "SDL", "SDRE", "SDCR", "SDCD", "HB4", "HB3", "TL", "TLCR", "SC", "ST", "BO", "BOUD", "UD")
 
 _current = {"session": None}
 
@@ -81,7 +95,7 @@ class Session:
         self.faults = faults  # list of (kind, iteration, frac)
         self.loop = new_loop()
         self.inj = IterationInjector(self.loop)
-        self.gw = Gateway(self.loop)
+        self.gw = SecureGateway(self.loop) if transport == "secure" else Gateway(self.loop)
         self.problems = []
         self.counts = {}
         self.cb1 = []
@@ -111,7 +125,16 @@ class Session:
         gw.disc_policy = self._disc_policy
         gw.listeners.append(self._on_event)
         self.inj.sleep_hook = self._sleep_point
-        self.loop.on_connection = self._on_tcp_connection
+        if transport == "secure":
+            gw.session_policy = lambda: "silent" if self._blackout() else "ok"
+
+            def on_connection(tr):
+                self._on_tcp_connection(tr)
+                gw.on_connection(tr)
+
+            self.loop.on_connection = on_connection
+        else:
+            self.loop.on_connection = self._on_tcp_connection
         self.loop.on_datagram_endpoint = self._on_udp_endpoint
 
     # -- helpers ------------------------------------------------------------
@@ -218,6 +241,10 @@ class Session:
             if typ == "DisconnectRequest":
                 self.established = False
                 self.last_loss = "server-DisconnectRequest"
+            elif typ == "SessionStatus":  # the server closed the secure session (close / timeout)
+                self.established = False
+                self.pending_connect = None
+                self.last_loss = "server-session-close"
         elif kind == "rx_done":
             if typ == "ConnectResponse":
                 pc = self.pending_connect
@@ -298,6 +325,12 @@ class Session:
             self.blackout_until = self.loop.time() + 5.0
             if kind == "BOUD" and not self.user_disconnect_called and self.tunnel is not None:
                 self.loop.call_later(0.5, lambda: None if self.user_disconnect_called else self.loop.create_task(self.user_disconnect()))
+        elif kind in ("SC", "ST"):  # secure session closed by the server: status close (5) / timeout (3)
+            if not gw.is_open:
+                self.count("fault_not_applicable")
+                return
+            gw.note("fault", fault=kind)
+            gw.send_session_status(5 if kind == "SC" else 3)
         elif kind in ("HB4", "HB3"):
             gw.note("fault", fault=kind)
             self.hb_silent = 4 if kind == "HB4" else 3
@@ -352,6 +385,11 @@ class Session:
             self.tunnel = UDPTunnel(self.xknx, cemi_received_callback=lambda raw: None, gateway_ip="10.0.0.2",
                                     gateway_port=3671, local_ip="10.0.0.1", route_back=self.route_back,
                                     auto_reconnect=self.auto, auto_reconnect_wait=3)
+        elif self.transport == "secure":
+            self.tunnel = SecureTunnel(self.xknx, cemi_received_callback=lambda raw: None, gateway_ip="10.0.0.2",
+                                       gateway_port=3671, user_id=SECURE_USER_ID, user_password=SECURE_USER_PASSWORD,
+                                       device_authentication_password=SECURE_DEVICE_PASSWORD,
+                                       auto_reconnect=self.auto, auto_reconnect_wait=3)
         else:
             self.tunnel = TCPTunnel(self.xknx, cemi_received_callback=lambda raw: None, gateway_ip="10.0.0.2",
                                     gateway_port=3671, auto_reconnect=self.auto, auto_reconnect_wait=3)
@@ -447,19 +485,21 @@ def run(ctx):
                 "distinct = (transport, auto, fault kinds, state-callback sequence, reconnects, handshakes)")
     ctx.require("fault_SD", "fault_SD2", "fault_SDL", "fault_SDRE", "server_disconnect_right_after_reconnect", "fault_SDCR", "fault_SDCD", "connect_responses_delayed",
                 "runs_udp_auto_route_back", "fault_OOO", "fault_BO", "fault_BOUD", "frames_swallowed_by_blackout", "fault_HB4", "fault_HB3", "fault_AD2", "fault_AD1", "fault_TL", "fault_TLCR",
-                "fault_UD", "reconnects_started", "handshakes_completed", "state_callbacks", "sleep_points_checked",
+                "fault_UD", "fault_SC", "fault_ST", "runs_secure_auto", "runs_secure_noauto", "reconnects_started", "handshakes_completed", "state_callbacks", "sleep_points_checked",
                 "user_disconnect_returned", "heartbeats_left_unanswered", "acks_dropped", "connect_requests_left_unanswered")
     window = ctx.scale(2, 10)
     i = 0
-    with watch_reconnect():
+    with watch_reconnect(), secure_harness(ctx.seed):
         for transport, auto, rb in CONFIGS:
             base = judge_session(ctx, transport, auto, [], sample=True, route_back=rb)
             n_iter = base.iterations
             sleeping = set(base.sleeps)
             ctx.extra[f"baseline_iterations_{transport}_{'auto' if auto else 'noauto'}{'_rb' if rb else ''}"] = n_iter
-            kinds = FAULTS_UDP if transport == "udp" else FAULTS_TCP
+            kinds = FAULTS_UDP if transport == "udp" else FAULTS_TCP if transport == "tcp" else FAULTS_SECURE
             k0 = base.k_connected  # failures are injected once the user's connect() has returned
-            points = [(k, 0.0) for k in range(k0, n_iter)] + [(k, 0.5) for k in sorted(sleeping) if k >= k0]
+            points = [(k, 0.0) for k in range(k0, n_iter)]
+            if not (ctx.quick and transport == "secure" and not auto):  # quick budget: mid-sleep points for secure+auto only
+                points += [(k, 0.5) for k in sorted(sleeping) if k >= k0]
             for kind in kinds:
                 for k, frac in points:
                     i += 1
@@ -467,7 +507,7 @@ def run(ctx):
                         continue
                     judge_session(ctx, transport, auto, [(kind, k, frac)], sample=(kind in ("SDCR", "HB4") and k == 20),
                                   route_back=rb)
-            if True:
+            if not (ctx.quick and transport == "secure"):  # secure tunnel: singles in quick, pairs in thorough
                 seconds = kinds if window > 2 else ("SD", "UD")
                 far = [k1_off for k1_off in ((12, 30) if window > 2 else ())]
                 for k1 in range(k0, n_iter):
@@ -484,7 +524,7 @@ def run(ctx):
 
 def replay(ctx, witness):
     ctx.rule = "replay of one recorded fault schedule"
-    with watch_reconnect():
+    with watch_reconnect(), secure_harness(ctx.seed):
         judge_session(ctx, witness["transport"], witness["auto_reconnect"], [tuple(f) for f in witness["faults"]],
                       route_back=bool(witness.get("route_back")))
     ctx.distinct("replay")
